@@ -721,7 +721,14 @@ func runC04(c *Ctx) {
 	})
 
 	// ---- R-C04-SWEEP
-	c.Group("R-C04-SWEEP", "expirationMap.cleanup", func() {
+	sweepOnceRule(c, "R-C04-SWEEP")
+}
+
+// sweepOnceRule: the expiry sweep does one policy.Del, one store.Del and one report per
+// key that passes the re-check. Shared by C04, C13 and C14.
+func sweepOnceRule(c *Ctx, ruleID string) {
+	L, P := c.L, c.P
+	c.Group(ruleID, "expirationMap.cleanup", func() {
 		fn := P.Fn("ristretto", "expirationMap", "cleanup")
 		L.Analysed(fname(fn))
 		tb := newTB(fn)
@@ -732,7 +739,7 @@ func runC04(c *Ctx) {
 			}
 		})
 		if next == nil {
-			L.Undecided("R-C04-SWEEP", "expirationMap.cleanup", "no range over a bucket", fn.Pos())
+			L.Undecided(ruleID, "expirationMap.cleanup", "no range over a bucket", fn.Pos())
 			return
 		}
 		key := "ext[1](" + tb.T(next).String() + ")"
@@ -757,13 +764,13 @@ func runC04(c *Ctx) {
 			}
 			if nPD != 1 || nSD != 1 || len(hands) != wantCB {
 				good = false
-				L.Fail("R-C04-SWEEP", "expirationMap.cleanup", fmt.Sprintf("per swept key: policy.Del=%d store.Del=%d reports=%d (callback set=%v), want 1/1/%d (block path %s)", nPD, nSD, len(hands), cbSet == 1, wantCB, p.BlockPath()), next.Pos())
+				L.Fail(ruleID, "expirationMap.cleanup", fmt.Sprintf("per swept key: policy.Del=%d store.Del=%d reports=%d (callback set=%v), want 1/1/%d (block path %s)", nPD, nSD, len(hands), cbSet == 1, wantCB, p.BlockPath()), next.Pos())
 			}
 		}
 		if n == 0 {
-			L.Undecided("R-C04-SWEEP", "expirationMap.cleanup", "no removing path found in the sweep", next.Pos())
+			L.Undecided(ruleID, "expirationMap.cleanup", "no removing path found in the sweep", next.Pos())
 		} else if good {
-			L.Ok("R-C04-SWEEP", "expirationMap.cleanup", fmt.Sprintf("one policy.Del, one store.Del, one report per swept key (%d paths)", n), next.Pos())
+			L.Ok(ruleID, "expirationMap.cleanup", fmt.Sprintf("one policy.Del, one store.Del, one report per swept key (%d paths)", n), next.Pos())
 		}
 	})
 }
